@@ -137,3 +137,192 @@ SPECS = {
         "coverage predicate: running holding (acquisitions - disposals, rescaled by splits at day end) >= 0 after every day with a SELL"],
         outside=OUTSIDE + ["CLI/MCP 'no partial output' (process and I/O behaviour)"]),
 }
+
+
+# ---------------------------------------------------------------------------------------------- relational
+def _dedup(items):
+    seen, out = set(), []
+    for it in items:
+        k = repr(it)
+        if k not in seen:
+            seen.add(k)
+            out.append(it)
+    return out
+
+
+def has_same_day_pair(lines):
+    days = [l[2] for l in lines]
+    return len(days) != len(set(days))
+
+
+def fam_c06(tier, seed):
+    sks = []
+    n_all = 4 if tier == "quick" else 5
+    perm = []
+    for l in sk.bs_family(2, n_all, SHORT, need_sell=False):
+        if len(l) <= 3 or has_same_day_pair(l):
+            perm.append((l, BASES[0]))
+    for l in sk.bs_family(2, 4 if tier == "thorough" else 3, [0, 1, 30], tickers=("A", "B"), need_sell=False):
+        perm.append((l, BASES[0]))
+    if tier == "quick":
+        # 4 lines, two securities: only ledgers with a same-day pair
+        for l in sk.bs_family(4, 4, [0, 30], tickers=("A", "B"), need_sell=True):
+            if has_same_day_pair(l):
+                perm.append((l, BASES[0]))
+    # a split and trades on one day
+    base3 = list(sk.bs_family(2, 3, SHORT, need_sell=True))
+    for l in sk.with_events(base3, ("X", "U"), SHORT, ratios=("2",), max_events=1):
+        if has_same_day_pair(l):
+            perm.append((l, BASES[0]))
+    sks += _number("p", _dedup(perm), variant="perm", perms="gen" if tier == "quick" else "all")
+    small = [(l, BASES[0]) for l in sk.bs_family(1, 3 if tier == "quick" else 4, SHORT, need_sell=True)]
+    small += [(l, BASES[0]) for l in sk.bs_family(2, 3, [0, 30], tickers=("A", "B"), need_sell=True)]
+    sks += _number("f", _dedup(small), variant="fills")
+    files = [(l, BASES[0]) for l in sk.bs_family(1, 3, [0, 1, 30], need_sell=True)]
+    sks += _number("c", _dedup(files), variant="files")
+    # report level (grouping into disposals, tax years, sorts): ledgers with several disposals but no same-day duplicate
+    # trade lines (their weighted-average merge makes the gain-sign branches of calculate_totals stall the solver)
+    def no_dup(l):
+        ks = [(x[0], x[1], x[2]) for x in l]
+        return len(ks) == len(set(ks))
+    rep = [(l, BASES[0]) for l in sk.bs_family(2, 3, [0, 30], need_sell=True) if no_dup(l)]
+    rep += [(l, BASES[0]) for l in sk.bs_family(4, 4, [0, 30], tickers=("A", "B"), need_sell=True)
+            if no_dup(l) and sum(1 for x in l if x[0] == "S") == 2 and sum(1 for x in l if x[1] == "A") == 2 and l[0][0] == "B"]
+    sks += _number("r", rep, variant="perm", level="report")
+    return sks
+
+
+def fam_c09(tier, seed):
+    n = 4 if tier == "quick" else 5
+    days = [0, 1, 30] if tier == "quick" else SHORT
+    items = [(l, BASES[0]) for l in sk.bs_family(2, n, days, tickers=("A", "B"), need_sell=True)]
+    # capital events and splits in both securities
+    b3 = list(sk.bs_family(2, 3, [0, 30], tickers=("A", "B"), need_sell=True))
+    for l in sk.with_events(b3, ("X", "C", "M"), [0, 1, 30], ratios=("2",), max_events=1, tickers=("A", "B")):
+        items.append((l, BASES[0]))
+    items = _dedup(items)
+    sks = _number("m", items)
+    rep = [it for it in items if len(it[0]) <= 3]
+    sks += _number("r", rep, level="report")
+    return sks
+
+
+def fam_c10(tier, seed):
+    ratios = ("2", "3", "5/2") if tier == "quick" else ("2", "3", "5/2", "sym")
+    nb = 3 if tier == "quick" else 4
+    base = list(sk.bs_family(1, nb, SHORT, need_sell=False))
+    items = []
+    for l in sk.with_events(base, ("X", "U"), SHORT, ratios=ratios, max_events=1):
+        items.append((l, BASES[0]))
+    # splits around capital events
+    b2 = list(sk.bs_family(1, 2, [0, 30], need_sell=False))
+    for l in sk.with_events(b2, ("C", "M"), [0, 1, 30, 31], max_events=1):
+        for l2 in sk.with_events([l], ("X", "U"), [0, 1, 30], ratios=("2",), max_events=1):
+            items.append((l2, BASES[0]))
+    if tier == "thorough":
+        b3 = list(sk.bs_family(2, 3, SHORT, need_sell=True))
+        for l in sk.with_events(b3, ("X", "U"), SHORT, ratios=("2", "3"), max_events=2):
+            if sum(1 for x in l if x[0] in "XU") == 2:
+                items.append((l, BASES[0]))
+    # two securities: a split of one never touches the other
+    b2s = list(sk.bs_family(2, 3, [0, 30], tickers=("A", "B"), need_sell=True))
+    for l in sk.with_events(b2s, ("X",), [0, 1, 30], ratios=("2",), max_events=1, tickers=("B",)):
+        items.append((l, BASES[0]))
+    sks = _number("t", _dedup(items), variant="twin")
+    noop = []
+    for l in sk.bs_family(1, nb, SHORT, need_sell=False):
+        for d in SHORT:
+            for r in ("2", "3"):
+                noop.append((sk.canon_order([list(x) for x in l] + [["X", "A", d, r], ["U", "A", d, r]]), BASES[0]))
+    sks += _number("n", _dedup(noop), variant="noop")
+    return sks
+
+
+def fam_c11(tier, seed):
+    nb = 3 if tier == "quick" else 4
+    base = list(sk.bs_family(1, nb, SHORT, need_sell=False))
+    items = []
+    for l in sk.with_events(base, ("C", "M", "D"), SHORT, max_events=1):
+        items.append((l, BASES[0]))
+    b2 = list(sk.bs_family(1, 2 if tier == "quick" else 3, SHORT, need_sell=False))
+    for l in sk.with_events(b2, ("C", "M"), SHORT, max_events=2):
+        if sum(1 for x in l if x[0] in "CM") == 2:
+            items.append((l, BASES[0]))
+    # an event of one security next to trades of another
+    b2s = list(sk.bs_family(2, 3, [0, 30], tickers=("A", "B"), need_sell=False))
+    for l in sk.with_events(b2s, ("C", "M"), [0, 1, 30], max_events=1, tickers=("B",)):
+        items.append((l, BASES[0]))
+    items = _dedup(items)
+    sks = _number("e", items, variant="events")
+    canc = [it for it in items if any(x[0] == "C" for x in it[0]) and not any(x[0] == "M" for x in it[0])]
+    sks += _number("k", canc, variant="cancel")
+    rep = [it for it in items if len(it[0]) <= 3 and any(x[0] == "D" for x in it[0])]
+    sks += _number("r", rep, variant="events", level="report")
+    return sks
+
+
+def fam_c12(tier, seed):
+    npre = 3 if tier == "quick" else 4
+    items = []
+    for l in sk.bs_family(1, npre, SHORT, need_sell=True):
+        last = max(x[2] for x in l)
+        for gap in (31, 32, 61, 400):
+            for k in ("B", "S", "X", "U", "D"):
+                suffix = [k, "A", last + gap] + (["2"] if k in "XU" else [])
+                items.append((l + [suffix], len(l)))
+        if tier == "thorough" and len(l) <= 3:
+            for k1 in ("B", "S"):
+                for k2 in ("B", "S", "X"):
+                    s1 = [k1, "A", last + 31]
+                    s2 = [k2, "A", last + 32] + (["2"] if k2 == "X" else [])
+                    items.append((l + [s1, s2], len(l)))
+    # prefixes with a split
+    b2 = list(sk.bs_family(2, 2 if tier == "quick" else 3, SHORT, need_sell=True))
+    for l in sk.with_events(b2, ("X",), SHORT, ratios=("2",), max_events=1):
+        last = max(x[2] for x in l)
+        for k in ("B", "S"):
+            items.append((l + [[k, "A", last + 31]], len(l)))
+    sks = []
+    for i, (l, n) in enumerate(items):
+        sks.append(mk(i, "m", l, wit=WIT, prefix=n))
+    j = 0
+    for l, n in items:
+        if n <= 2 and len(l) == n + 1:
+            sks.append(mk(j, "r", l, wit=WIT, prefix=n, level="report"))
+            j += 1
+    return sks
+
+
+def bounds_rel(text):
+    return lambda tier: text[0] if tier == "quick" else text[1]
+
+
+SPECS.update({
+    "C06": dict(id="C06", families=fam_c06, entry_points=REPORT_ENTRY + ["cgt_core::dsl::transaction_to_dsl", "cgt_core::parser::parse_file", "cgt-cli main.rs read_and_concatenate_files (source-extracted at build time)"],
+                bounds=bounds_rel((
+                    "all permutations of every B/S ledger with 2..3 lines (and every 4-line ledger with two lines on one day) on {0,1,30,31}, of two-security ledgers with 2..3 lines (4 lines with a same-day pair), of ledgers with a split on a trading day; every BUY/SELL of ledgers up to 3 lines broken into two fills (adjacent and separated); ledgers up to 3 lines cut into two files at every boundary with 4 first-file endings; all numeric fields (and the fill weights) symbolic",
+                    "as quick with 5-line ledgers (generators of the symmetric group for 5 lines), two securities up to 4 lines, fills up to 4 lines")),
+                assumptions=COMMON_ASSUME + ["the two-file input is produced by the real DSL writer; arbitrary lexical layouts are C13's subject"], outside=OUTSIDE + ["more than two input files", "fills of one trade on more than two lines"]),
+    "C09": dict(id="C09", families=fam_c09, entry_points=REPORT_ENTRY + ["cgt_core::parser::parse_file (ticker case)", "serde Deserialize for Transaction (ticker case)"],
+                bounds=bounds_rel((
+                    "every two-security B/S ledger with 2..4 lines on {0,1,30} (plus one split/capital-return/accumulation line for 2..3 trade lines), every interleaving of the two securities' lines within each day; the whole ledger against each security alone; report level for <= 3 lines; all numeric fields symbolic",
+                    "as quick with 2..5 lines on {0,1,30,31}")),
+                assumptions=COMMON_ASSUME, outside=OUTSIDE + ["more than two securities", "non-ASCII tickers (rejected by the grammar)"]),
+    "C10": dict(id="C10", families=fam_c10, entry_points=MATCHER_ENTRY,
+                bounds=bounds_rel((
+                    "every B/S ledger with 1..3 lines on {0,1,30,31} plus one SPLIT or UNSPLIT (ratio 2, 3, 5/2) at every palette day, against its twin in post-split units; splits next to a CAPRETURN/ACCUMULATION; a split of another security; SPLIT r + UNSPLIT r on one day (r = 2, 3) against the ledger without them; all other numeric fields symbolic",
+                    "as quick with 1..4 trade lines, a symbolic ratio r > 0, and two splits for 2..3 trade lines")),
+                assumptions=COMMON_ASSUME + ["a day's SPLIT/UNSPLIT takes effect after that day's trades (the reading of the tool's main pass); the twin rescales lines dated up to and including the split day"], outside=OUTSIDE),
+    "C11": dict(id="C11", families=fam_c11, entry_points=REPORT_ENTRY,
+                bounds=bounds_rel((
+                    "every B/S ledger with 1..3 lines on {0,1,30,31} plus one CAPRETURN / ACCUMULATION / DIVIDEND at every palette day, 1..2 trade lines plus two capital events, an event of another security; with/without each event line; CAPRETURN paired with an equal ACCUMULATION; all amounts, fees and tax symbolic (net return >= 0)",
+                    "as quick with 1..4 trade lines and two events for up to 3 trade lines")),
+                assumptions=COMMON_ASSUME + ["disposals dated before an event may be restated by it (the tool attaches the adjustment to acquisition lots; pinned by the AssetEventsNotFullSale goldens) - not demanded otherwise"], outside=OUTSIDE),
+    "C12": dict(id="C12", families=fam_c12, entry_points=REPORT_ENTRY,
+                bounds=bounds_rel((
+                    "prefix: every B/S ledger with 1..3 lines on {0,1,30,31} (and 2-line ledgers with a split); suffix: one BUY/SELL/SPLIT/UNSPLIT/DIVIDEND line dated 31, 32, 61 or 400 days after the prefix's last line; report level for prefixes of <= 2 lines; all numeric fields symbolic",
+                    "as quick with prefixes of 1..4 lines and two-line suffixes")),
+                assumptions=COMMON_ASSUME, outside=OUTSIDE + ["CAPRETURN/ACCUMULATION continuations (excluded by the property)"]),
+})
+for _p in ("C06", "C09", "C10", "C11", "C12"):
+    SPECS[_p].setdefault("outcome_free", False)
